@@ -22,7 +22,7 @@ ASSUMPTIONS = ['CachedMethods compatibility shim (DESIGN.md section 1)',
                'RDKit random kekule SMILES denote the molecule RDKit parsed',
                'gap predicates are applied only after a mismatch: pseudo-asymmetric substituents; symmetric cages']
 CONFIG = {
-    'quick': {'shards': 16, 'budget_s': 100, 'n_corpus': 1100, 'n_ring': 160, 'k_redescr': 3, 'k_writer': 3, 'k_rdkit': 2,
+    'quick': {'shards': 16, 'budget_s': 300, 'n_corpus': 1100, 'n_ring': 160, 'k_redescr': 3, 'k_writer': 3, 'k_rdkit': 2,
               'floors': {'evaluations': 4000, 'distinct_nontrivial': 600, 'descr.redescribe': 1500,
                          'descr.writer': 1500, 'descr.rdkit': 500, 'small.graphs': 3000, 'base.mixture': 1000,
                          'base.symmetric-dimer': 300, 'base.partially-labelled': 100, 'preread.smiles_atoms_order': 500}, 'exhaustive_subspaces': ['labelled connected graphs <= 4 atoms (see rt/enum.py SMALL)']},
